@@ -217,10 +217,11 @@ def gen_key(k):
     return k.split(" ")[0] if " " in k else k
 
 
-def _run_harness(args, what, timeout):
+def _run_harness(args, what, timeout, extra_env=None):
     """stdout/stderr of the harness go to a file (code under test may print a lot, e.g. insert_mappings reports every change it
     ignores); the tail is shown when the harness itself fails."""
     env = dict(os.environ, RUST_BACKTRACE="0", RUST_LIB_BACKTRACE="0")
+    env.update(extra_env or {})
     log_path = args[-1] + ".log"
     with open(log_path, "w") as lf:
         r = subprocess.run(["timeout", str(timeout), BIN] + args, stdout=lf, stderr=subprocess.STDOUT, env=env)
@@ -233,8 +234,10 @@ def _run_harness(args, what, timeout):
     os.remove(log_path)
 
 
-def exec_harness(prop, in_path, out_path, timeout=3600):
-    _run_harness(["exec", prop, in_path, out_path], "exec", timeout)
+def exec_harness(prop, in_path, out_path, timeout=3600, rev=False):
+    """rev: every mapping set of every record is built with its entries inserted in the opposite order (VERIF_REV, read by the
+    harness): the operations on mapping sets are functions of partial maps, their answers may not depend on insertion order."""
+    _run_harness(["exec", prop, in_path, out_path], "exec", timeout, {"VERIF_REV": "1"} if rev else None)
 
 
 def gen_harness(prop, seed, n, out_path, timeout=3600):
